@@ -40,10 +40,13 @@ def wrap(orig, stats):
     return h
 
 
-def run_history(hist, codes):
+def run_history(hist, codes, declared=False):
     stats = {}
     names = LogDict()
-    parser = TracesParser(codes, {}, names)
+    # declared: the parser is built with a thread map that already declares every thread of the history (as after a dump's
+    # thread map, or on a second request on the same object)
+    tp = {tid: 1 + k for k, tid in enumerate(sorted({e[0] for e in hist}))} if declared else {}
+    parser = TracesParser(codes, tp, names)
     parser.handlers = {k: wrap(v, stats) for k, v in parser.handlers.items()}
     evs = []
     for i, (tid, code, q, ws) in enumerate(hist):
@@ -73,7 +76,7 @@ def main():
     out = []
     for i, h in enumerate(req['histories']):
         t = codes if not tables or tables[i] is None else {int(k): v for k, v in tables[i]}
-        out.append(run_history(h, t))
+        out.append(run_history(h, t, declared=bool(req.get('declared')) and i % 2 == 1))
     json.dump({'results': out}, sys.stdout)
 
 
